@@ -497,7 +497,12 @@ class CallMixin:
 
     def str_split(self, recv, a, p, line): raise Undecided('str.split at line %d' % line)
 
-    def str_of_ref(self, v, p, line): raise Undecided('str(pair)')
+    def str_of_ref(self, v, p, line):
+        fn = self.repo.find_method('Pair', '__str__')
+        if fn is None: raise Undecided('str(pair)')
+        res = self.inline_call(fn, v, [], {}, p, '__str__', line)
+        if len(res) != 1 or res[0][0] != 'normal': raise Undecided('Pair.__str__ forks')
+        return p.env.pop('__str__')
 
 
 BUILTINS = {'sum', 'len', 'str', 'int', 'float', 'max', 'min', 'abs', 'pow', 'isinstance', 'hasattr', 'list', 'range', 'print'}
